@@ -179,7 +179,11 @@ CLAIMED = {
             "Algo = path: 20 k pop / edge orders) is FORCED onto nfa_find_epsilon_path, nfa_simulate_word and "
             "pda_simulate_word and the returned path compared with the model's.  Derive.tla models cfg_derive_word's two worklist loops (all CNF rule "
             "lists <= 3 (4) in every order, both modes: valid derivation, termination) and the same step functions "
-            "(DeriveSteps.tla) recompute every recorded derivation, which must be identical.",
+            "(DeriveSteps.tla) recompute every recorded derivation, which must be identical.  NfaSim.tla / PdaSim.tla "
+            "model nfa_simulate_word / pda_simulate_word as a whole (forward stack of state / configuration sets, backward "
+            "reconstruction with every choice of accepting state, epsilon path and move source: never stuck on an "
+            "accepted word, partial result always a valid run suffix, result genuine, none iff rejected) and every "
+            "recorded run must be a behaviour of that model (IsModelRun / IsModelRunP, binding clause).",
             "trusted: TLC, abstraction.py, FA/PDA/CFG.tla; wall-clock limit for termination",
             "TLA+ model with nondeterministic orders (TLC exhaustive) + TLC validation of the implementation's own traces"),
     "C16": ("5/C16",
